@@ -74,7 +74,8 @@ deriving DecidableEq, Repr, Inhabited
 
 inductive AddRes
   | ok | errRange | errRefOrder | errPosOrder
-  | panicIndex   -- `i.Refs[rid]` with rid = -1
+  | errNoRef     -- placed record with a negative reference id
+  | panicIndex   -- `i.Refs[rid]` out of range (unreachable: kept so that no default value is invented)
 deriving DecidableEq, Repr, Inhabited
 
 /-- inner loop of the bin bookkeeping: the first stored chunk whose end lies behind the new begin is
@@ -138,8 +139,8 @@ def add (i : Index) (r : Rec) : Index × AddRes :=
   let um := umCount i.unmapped
   if !r.placed then ({ i with unmapped := some (um + 1) }, .ok) else
   let i := { i with unmapped := some um }
+  if r.rid < 0 then (i, .errNoRef) else
   if r.rid < (i.refs.length : Int) - 1 then (i, .errRefOrder) else
-  if r.rid < 0 then (i, .panicIndex) else
   let rid := r.rid.toNat
   let grown := decide (rid ≥ i.refs.length)
   let refs := if grown then i.refs ++ List.replicate (rid + 1 - i.refs.length) emptyRef else i.refs
